@@ -1193,6 +1193,7 @@ func wrapAny(val Node, targetType *Type) Node {
 			v.T = targetType
 			return v
 		}
+		return v // ill-typed operator expression, its type error has been reported
 	}
 	arrayLit, ok := val.(*ArrayLiteral)
 	if targetType.Name == ARRAY && ok {
